@@ -52,7 +52,12 @@ func matchLen(b []byte, lit string, k int) int {
 //@ ensures eof-iff: (err == io.ErrUnexpectedEOF) == (matchLen(b, lit, 0) == len(b) && len(b) < len(lit))
 //@ ensures eof-n: err == io.ErrUnexpectedEOF ==> n == len(b)
 //@ ensures bad-n: err != nil && err != io.ErrUnexpectedEOF ==> n == matchLen(b, lit, 0) && n < len(b) && n < len(lit)
+//@ ensures ok-bytes: err == nil ==> len(b) >= len(lit) && vForall(0, len(lit), func(k int) bool { return b[k] == lit[k] })
+//@ ensures eof-bytes: err == io.ErrUnexpectedEOF ==> len(b) < len(lit) && vForall(0, len(b), func(k int) bool { return b[k] == lit[k] })
+//@ ensures bad-bytes: err != nil && err != io.ErrUnexpectedEOF ==> vForall(0, n, func(k int) bool { return b[k] == lit[k] }) && b[n] != lit[n]
+//@ ensures range: 0 <= n && n <= len(b) && n <= len(lit)
 //@ loop 0 invariant 0 <= i && i <= len(b) && i <= len(lit)
+//@ loop 0 invariant vForall(0, i, func(k int) bool { return b[k] == lit[k] })
 //@ loop 0 invariant matchLen(b, lit, i) == matchLen(b, lit, 0)
 //@ loop 0 decreases len(b) - i
 
@@ -439,6 +444,10 @@ func numTS(b []byte, resumeOffset int, state ConsumeNumberState) int {
 //@ ensures eof-e: isUnexpectedEOF(err) && numTS(b, resumeOffset, state) == nE ==> n == len(b)-1 && result1 == beforeExponentDigits && (b[n] == 'e' || b[n] == 'E')
 //@ ensures eof-esign: isUnexpectedEOF(err) && numTS(b, resumeOffset, state) == nESign ==> n == len(b)-2 && result1 == beforeExponentDigits && (b[n] == 'e' || b[n] == 'E')
 //@ ensures bad-n: err != nil && !isUnexpectedEOF(err) ==> n == numTP(b, resumeOffset, state) && n < len(b)
+//@ ensures range: 0 <= n && n <= len(b)
+//@ ensures resume-state: isUnexpectedEOF(err) || (err == nil && n == len(b)) ==> result1 <= withinExponentDigits
+//@ ensures resume-init: (isUnexpectedEOF(err) || (err == nil && n == len(b))) && (result1 == consumeNumberInit || result1 == beforeIntegerDigits) ==> n == 0
+//@ ensures resume-exp: (isUnexpectedEOF(err) || (err == nil && n == len(b))) && result1 == beforeExponentDigits ==> n < len(b)
 //@ loop 0 invariant old(resumeOffset) <= n && n <= len(b) && state == old(state) && (state == withinIntegerDigits || state == withinFractionalDigits || state == withinExponentDigits)
 //@ loop 0 invariant numExact(b, n, numStart(state), numTP(b, old(resumeOffset), old(state)), numTS(b, old(resumeOffset), old(state)))
 //@ loop 0 decreases len(b) - n
